@@ -37,6 +37,7 @@ import (
 	"gitlab.com/aquachain/aquachain/aqua/event"
 	"gitlab.com/aquachain/aquachain/common"
 	"gitlab.com/aquachain/aquachain/common/sense"
+	"gitlab.com/aquachain/aquachain/common/verifhook"
 	"gitlab.com/aquachain/aquachain/core/types"
 	"gitlab.com/aquachain/aquachain/crypto"
 )
@@ -267,6 +268,7 @@ func (ks *KeyStore) SignHash(a accounts.Account, hash []byte) ([]byte, error) {
 	if !found {
 		return nil, ErrLocked
 	}
+	verifhook.Point("keystore.signing", "SignHash")
 	// Sign the hash using plain ECDSA operations
 	return crypto.Sign(hash, unlockedKey.PrivateKey)
 }
@@ -282,6 +284,7 @@ func (ks *KeyStore) SignHashAllowed(a accounts.Account, hash []byte) ([]byte, er
 	if !found {
 		return nil, ErrLocked
 	}
+	verifhook.Point("keystore.signing", "SignHashAllowed")
 	// Sign the hash using plain ECDSA operations
 	return crypto.Sign(hash, unlockedKey.PrivateKey)
 }
@@ -298,6 +301,7 @@ func (ks *KeyStore) SignHashOK(a accounts.Account, rlpenc, hash []byte) ([]byte,
 	if !found {
 		return nil, ErrLocked
 	}
+	verifhook.Point("keystore.signing", "SignHashOK")
 	// Sign the hash using plain ECDSA operations
 	return crypto.Sign(hash, unlockedKey.PrivateKey)
 }
@@ -335,6 +339,7 @@ func (ks *KeyStore) SignTx(a accounts.Account, tx *types.Transaction, chainID *b
 	if !found {
 		return nil, ErrLocked
 	}
+	verifhook.Point("keystore.signing", "SignTx")
 	// Depending on the presence of the chain ID, sign with EIP155 or homestead
 	if chainID != nil {
 		return types.SignTx(tx, types.NewEIP155Signer(chainID), unlockedKey.PrivateKey)
@@ -354,6 +359,7 @@ func (ks *KeyStore) SignHashWithPassphrase(a accounts.Account, passphrase string
 		return nil, err
 	}
 	defer zeroKey(key.PrivateKey)
+	verifhook.Point("keystore.signing", "SignHashWithPassphrase")
 	return crypto.Sign(hash, key.PrivateKey)
 }
 
@@ -368,6 +374,7 @@ func (ks *KeyStore) SignTxWithPassphrase(a accounts.Account, passphrase string, 
 		return nil, err
 	}
 	defer zeroKey(key.PrivateKey)
+	verifhook.Point("keystore.signing", "SignTxWithPassphrase")
 
 	// Depending on the presence of the chain ID, sign with EIP155 or homestead
 	if chainID != nil {
